@@ -27,6 +27,9 @@ type consumerLog struct {
 
 // RunC04M3: many goroutines on one queue in the race build.
 func RunC04M3(c *core.Ctx, idx int) {
+	if realSchedulerDisabled(c) {
+		return
+	}
 	m3hook()
 	r := c.Rng
 	if idx%4 == 0 {
@@ -121,11 +124,12 @@ func RunC04M3(c *core.Ctx, idx int) {
 	cs := map[string]any{"program": fmt.Sprintf("cap=%d producers=%d x %d consumers=%d observers=%d removeAll=%v", capa, np, per, nc, observers, removeAll)}
 	select {
 	case <-done:
-	case <-time.After(60 * time.Second):
+	case <-time.After(30 * time.Second):
+		timedOutRuns++
 		if blocked, where := stableBlock("queue_"); blocked {
 			c.Violation("m3/deadlock", "the stress program did not terminate: "+where, cs)
 		} else {
-			c.Inconclusive("M3: a stress run did not finish within 60 s and no stable blocked state was observed")
+			c.Inconclusive("M3: a stress run did not finish within 30 s and no stable blocked state was observed")
 		}
 		return
 	}
@@ -177,6 +181,9 @@ func RunC04M3(c *core.Ctx, idx int) {
 
 // RunC06M3: streams on the real scheduler in the race build.
 func RunC06M3(c *core.Ctx, idx int) {
+	if realSchedulerDisabled(c) {
+		return
+	}
 	m3hook()
 	r := c.Rng
 	shape := []string{"fork", "split", "splitjoin"}[idx%3]
@@ -234,11 +241,12 @@ func RunC06M3(c *core.Ctx, idx int) {
 	cs := map[string]any{"program": fmt.Sprintf("%s length=%d fan-out=%d capacity=%d", shape, length, fan, capa)}
 	select {
 	case <-done:
-	case <-time.After(60 * time.Second):
+	case <-time.After(30 * time.Second):
+		timedOutRuns++
 		if blocked, where := stableBlock("queue"); blocked {
 			c.Violation("m3/stream-deadlock", "the stream did not terminate: "+where, cs)
 		} else {
-			c.Inconclusive("M3: a stream run did not finish within 60 s and no stable blocked state was observed")
+			c.Inconclusive("M3: a stream run did not finish within 30 s and no stable blocked state was observed")
 		}
 		return
 	}
